@@ -221,6 +221,12 @@ def check(src, rep):
         rep.ok("R5", "frame = body", "LlcPdu wraps the same NotificationBody grammar; both entry points share the item normaliser")
     else:
         rep.violation("R5", "kamstrup", "frame-body", "frame and bare-body decoding do not share grammar", file, 1)
+    from sa.decoders import octet_string_text_finding
+    otf = octet_string_text_finding(w)
+    if otf:
+        rep.violation("R5", "cosem.Field", "text-alternatives", otf, src.file("cosem"), 1)
+    else:
+        rep.ok("R5", "text fields in the grammar", "an octet string is a date-time struct or text, a visible string is text; no other alternative can claim the octets")
     wt, n_wt = wire_type_findings(w, ["cosem", MOD])
     for kind, mod, where, text, line in wt:
         rep.violation("R5", f"{mod}.{where.split(':')[0]}", f"wire-type:{where}", text, src.file(mod), line)
